@@ -1,4 +1,4 @@
-import GtfsVerif.Lemmas.Realtime
+import GtfsVerif.Lemmas.RealtimeLinks
 /-! # C04 — trips and vehicles associated in a feed point at each other
 
 Model: the association tables `tripToVeh` / `vehToTrip` / `noIdLinks` filled by `entityStep` and
@@ -102,5 +102,95 @@ example :
     (parse .noExt m).vehicles.map (·.trip.map (·.id.id)) = [some [116]] := by
   simp [parse, prepass, runEntities, entityStep, parseTripUpdate, parseTripDescriptor, parseStartTime, parseStartDate,
     parseVehicleDescriptor, addTrip, mergeTrip, mergeVehicle, finish, tripVehicle, aset, alookup, List.mergeSort, dirRT]
+
+end Gtfs.Rt
+
+namespace Gtfs.Rt
+
+/-! ## the whole message: every association an entity makes is reflected by mutual references -/
+
+/-- **an entity associates trip `t` with the identified vehicle `vid`** (a trip update carrying the
+    vehicle's descriptor, or the vehicle's position carrying the trip's): in the result the trip's
+    vehicle reference reaches the `Vehicles` entry of `vid`, and that vehicle's trip reference names
+    `t` – whatever else the message contains, as long as its associations do not contradict each
+    other. -/
+theorem C04_identified_link (ext : Ext) (es : List (Entity × Bool)) (hfun : FunctionalLinks (allItems ext es))
+    (it : VehData × Option TripID) (hit : it ∈ allItems ext es) (t : TripID) (vid : VehicleID)
+    (ht : it.2 = some t) (hv : it.1.id = some vid) :
+    tripVehicle (runEntities ext es) t = alookup vid (runEntities ext es).vehicles ∧
+    ((alookup vid (runEntities ext es).vehToTrip).bind fun t' => alookup t' (runEntities ext es).trips)
+      = alookup t (runEntities ext es).trips := by
+  constructor
+  · rw [tripVehicle_items]
+    have : (allItems ext es).reverse.findSome? (linkOfTrip t) = some vid := by
+      apply findSome?_of_mem_const _ _ it vid (List.mem_reverse.mpr hit) (by simp [linkOfTrip, ht, hv])
+      intro a ha b hb x y
+      exact hfun.1 t a (List.mem_reverse.mp ha) b (List.mem_reverse.mp hb) x y
+    rw [this]
+  · rw [vehToTrip_items]
+    have : (allItems ext es).reverse.findSome? (linkOfVeh vid) = some t := by
+      apply findSome?_of_mem_const _ _ it t (List.mem_reverse.mpr hit) (by simp [linkOfVeh, ht, hv])
+      intro a ha b hb x y
+      exact hfun.2.2 vid a (List.mem_reverse.mp ha) b (List.mem_reverse.mp hb) x y
+    rw [this]; rfl
+
+/-- **an entity associates trip `t` with an id-less vehicle** (a vehicle position without a vehicle
+    descriptor, carrying the trip's descriptor), and no entity associates `t` with an identified
+    vehicle: the trip's vehicle reference reaches exactly that vehicle's data. -/
+theorem C04_idless_trip_side (ext : Ext) (es : List (Entity × Bool)) (hfun : FunctionalLinks (allItems ext es))
+    (it : VehData × Option TripID) (hit : it ∈ allItems ext es) (t : TripID)
+    (ht : it.2 = some t) (hv : it.1.id = none)
+    (hno : ∀ a ∈ allItems ext es, linkOfTrip t a = none) :
+    tripVehicle (runEntities ext es) t = some it.1 := by
+  rw [tripVehicle_items]
+  have h0 : (allItems ext es).reverse.findSome? (linkOfTrip t) = none := by
+    rw [List.findSome?_eq_none_iff]; intro a ha; exact hno a (List.mem_reverse.mp ha)
+  rw [h0]
+  simp only
+  have hmem : it ∈ (idless (allItems ext es)).filter fun x => x.2 == some t := by
+    refine List.mem_filter.mpr ⟨List.mem_filter.mpr ⟨hit, by simp [hv]⟩, by simp [ht]⟩
+  rw [eq_singleton_of_mem_of_length_le_one _ it hmem (hfun.2.1 t)]
+  rfl
+
+/-- **the id-less vehicles of the result**: one per id-less vehicle position, in feed order, each
+    referring to the `Trips` entry of the trip its own entity names (nil when it names none) -/
+theorem C04_idless_vehicle_side (ext : Ext) (m : Msg) :
+    ∃ withId : List VehicleOut,
+      (parse ext m).vehicles = withId ++
+        (idless (allItems ext (prepass ext m))).map fun it =>
+          ({ data := it.1, trip := it.2.bind fun t => alookup t (runEntities ext (prepass ext m)).trips } : VehicleOut) := by
+  unfold parse finish
+  simp only
+  exact ⟨_, by rw [noId_out_items]⟩
+
+/-- **no association, no reference** (trip side): a trip no entity associates with a vehicle has a
+    nil vehicle reference -/
+theorem C04_unassociated_trip (ext : Ext) (es : List (Entity × Bool)) (t : TripID)
+    (h : ∀ it ∈ allItems ext es, it.2 ≠ some t) : tripVehicle (runEntities ext es) t = none := by
+  rw [tripVehicle_items]
+  have h0 : (allItems ext es).reverse.findSome? (linkOfTrip t) = none := by
+    rw [List.findSome?_eq_none_iff]; intro a ha
+    simp [linkOfTrip, h a (List.mem_reverse.mp ha)]
+  rw [h0]
+  simp only
+  have : ((idless (allItems ext es)).filter fun x => x.2 == some t) = [] := by
+    rw [List.filter_eq_nil_iff]; intro a ha
+    have := h a (List.mem_filter.mp ha).1
+    simpa using this
+  rw [this]; rfl
+
+/-- **no association, no reference** (vehicle side): an identified vehicle no entity associates
+    with a trip has a nil trip reference -/
+theorem C04_unassociated_vehicle (ext : Ext) (es : List (Entity × Bool)) (vid : VehicleID)
+    (h : ∀ it ∈ allItems ext es, it.1.id = some vid → it.2 = none) :
+    ((alookup vid (runEntities ext es).vehToTrip).bind fun t' => alookup t' (runEntities ext es).trips) = none := by
+  rw [vehToTrip_items]
+  have h0 : (allItems ext es).reverse.findSome? (linkOfVeh vid) = none := by
+    rw [List.findSome?_eq_none_iff]; intro a ha
+    unfold linkOfVeh
+    split
+    · next hid => exact h a (List.mem_reverse.mp ha) hid
+    · rfl
+  rw [h0]; rfl
 
 end Gtfs.Rt
